@@ -26,6 +26,7 @@ class DetLoop(base_events.BaseEventLoop):
         super().__init__()
         self._vtime = 0.0
         self._clock_resolution = 1e-9
+        self.tick = 1e-6
         self.steps = 0
         self._simq: list = []  # (when, seq, fn, args)
         self._simseq = 0
@@ -104,6 +105,10 @@ class DetLoop(base_events.BaseEventLoop):
         nxt = self._next_when()
         if not self._ready and nxt is not None and nxt > self._vtime:
             self._vtime = nxt
+        elif self._ready:
+            # executing callbacks takes time: without this a zero-delay periodic timer would
+            # freeze the virtual clock for ever
+            self._vtime += self.tick
         end_time = self._vtime + self._clock_resolution
         sched = self._scheduled
         while sched:
